@@ -1,5 +1,5 @@
 #!/bin/bash
-# setup_cmd: warm the build cache by building every harness once (offline).
+# setup_cmd: build every harness once against /repo (offline) to warm /verif/.gocache.
 set -u
 cd /verif
 . scripts/env.sh
@@ -8,12 +8,6 @@ rc=0
 for d in checks/*/; do
   id=$(basename "$d")
   [ -f "$d/main.go" ] || continue
-  ovl=()
-  if [ -f "checks/$id/overlay.spec" ]; then
-    go build -o build/overlaygen ./cmd/overlaygen || rc=1
-    build/overlaygen "checks/$id/overlay.spec" "build/overlay-$id" > "build/overlay-$id.json" || rc=1
-    ovl=(-overlay "build/overlay-$id.json")
-  fi
-  go build -tags verif "${ovl[@]}" -o "build/$id" "./checks/$id" || rc=1
+  VERIF_BUILD_ONLY=1 scripts/check.sh "$id" quick || rc=1
 done
 exit $rc
